@@ -15,6 +15,10 @@ DIRECTED = [
     ('ecdsa', 'two-curves', {'s1': 'msb384', 's2': 'msbA', 's3': 'healthy384'}, [{'all': False, 'check': 'CheckNonceMSB', 'batch': ['s3', 's1', 's2']}]),
     ('ecdsa', 'lcg-then-curves-without-model', {'s1': 'lcgA', 's2': 'healthy521', 's3': 'healthyk1'},
      [{'all': False, 'check': 'CheckLCGNonceGMP', 'batch': ['s1', 's2', 's3']}, {'all': False, 'check': 'CheckLCGNonceJavaUtilRandom', 'batch': ['s1', 's2', 's3']}]),
+    # several hundred guesses on one curve in one call: the recorded logarithm must be the guess that matched THIS issuer
+    ('ecdsa', 'crowd-and-weak', {'s1': 'crowd', 's2': 'msbA', 's3': 'msb384', 's4': 'msbB', 's5': 'msbC'},
+     [{'all': False, 'check': 'CheckNonceMSB', 'batch': ['s1', 's2', 's3', 's4', 's5']},
+      {'all': False, 'check': 'CheckNonceCommonPrefix', 'batch': ['s2', 's4', 's1', 's5']}]),
     ('ec', 'negative-logarithm', {'s1': 'weakprivateneg', 's2': 'weakprivate', 's3': 'weakprivateneg'},
      [{'all': False, 'check': 'CheckWeakECPrivateKey', 'batch': ['s1', 's2', 's3']}]),
     ('ec', 'structured', {'s1': 'weakprivate', 's2': 'healthy', 's3': 'closeA', 's4': 'closeB'},
